@@ -112,12 +112,28 @@ public:
 	}
 
 	HeterEventQueueBase(const HeterEventQueueBase & other)
-		: super(other)
+		:
+			super(other),
+			queueListConditionVariable(),
+			queueEmptyCounter(0),
+			queueNotifyCounter(0),
+			queueListMutex(),
+			queueList(),
+			freeListMutex(),
+			freeList()
 	{
 	}
 
 	HeterEventQueueBase(HeterEventQueueBase && other) noexcept
-		: super(std::move(other))
+		:
+			super(std::move(other)),
+			queueListConditionVariable(),
+			queueEmptyCounter(0),
+			queueNotifyCounter(0),
+			queueListMutex(),
+			queueList(),
+			freeListMutex(),
+			freeList()
 	{
 	}
 
